@@ -465,6 +465,10 @@ def config_table(ctx):
         "fractions do not sum to one": {"input": dict(modes["paths"]), "parameters": {"phase_assemblage": ["olivine", "enstatite"], "phase_fractions": [0.5, 0.6]}},
         "more phases than fractions": {"input": dict(modes["paths"]), "parameters": {"phase_assemblage": ["olivine", "enstatite"], "phase_fractions": [1.0]}},
         "more fractions than phases": {"input": dict(modes["paths"]), "parameters": {"phase_fractions": [0.5, 0.5]}},
+        # the same mismatches with one of the two lists left to its default (one phase, one fraction)
+        "two phases, fractions omitted": {"input": dict(modes["paths"]), "parameters": {"phase_assemblage": ["olivine", "enstatite"]}},
+        "three phases by ordinal, fractions omitted": {"input": dict(modes["paths"]), "parameters": {"phase_assemblage": [0, 1, 0]}},
+        "fractions not summing to one, phases omitted": {"input": dict(modes["paths"]), "parameters": {"phase_fractions": [0.7]}},
         "unknown phase name": {"input": dict(modes["paths"]), "parameters": {"phase_assemblage": ["peridot"], "phase_fractions": [1.0]}},
         "phase ordinal out of range": {"input": dict(modes["paths"]), "parameters": {"phase_assemblage": [7], "phase_fractions": [1.0]}},
         "unknown fabric letter": {"input": dict(modes["paths"]), "parameters": {"initial_olivine_fabric": "Q"}},
